@@ -3,7 +3,8 @@
    context cancellation and goroutine exit are primitives of the model. *)
 From FunV Require Import Base.Tac Base.ListX Model.Pipelines
   Proofs.Pipelines_conserve Proofs.Pipelines_quiesce Proofs.Pipelines_nets Proofs.Pipelines_complete Proofs.Pipelines_closer
-  Proofs.Pipelines_release Proofs.Pipelines_nodrop Proofs.Pipelines_shared Proofs.Pipelines_completeness.
+  Proofs.Pipelines_release Proofs.Pipelines_nodrop Proofs.Pipelines_shared Proofs.Pipelines_completeness
+  Proofs.Pipelines_completeness_merge Proofs.Pipelines_completeness_split Proofs.Pipelines_completeness_pp Proofs.Pipelines_completeness_map Proofs.Pipelines_completeness_pbuf Proofs.Pipelines_completeness_chan Proofs.Pipelines_completeness_all.
 
 (* every step of every network permutes
    remaining input ++ items in goroutines' hands ++ channel buffers ++ delivered ++ dropped *)
@@ -165,3 +166,56 @@ Theorem C01_complete_generate :
     Permutation (s_deliv s) input.
 Proof. exact gen_eof_complete. Qed.
 Print Assumptions C01_complete_generate.
+
+(* C01_complete for MergeIterators: any number n of inputs, any inputs, any interleaving *)
+Theorem C01_complete_merge :
+  forall n srcs s,
+    length srcs = n -> reach (fanin_net n (fun j => j)) (fanin_init n 0 srcs) s -> s_stopped s = false -> all_done s ->
+    Permutation (s_deliv s) (concat srcs).
+Proof. exact merge_complete. Qed.
+Print Assumptions C01_complete_merge.
+
+(* C01_complete for Split(n), n >= 1: the outputs together deliver a permutation of the input *)
+Theorem C01_complete_split :
+  forall n input s,
+    0 < n -> reach (split_net n) (split_init n input) s -> s_stopped s = false -> all_done s -> Permutation (s_deliv s) input.
+Proof. exact split_complete. Qed.
+Print Assumptions C01_complete_split.
+
+(* C01_complete for Iterator.ProcessParallel / itertool.ParallelForEach / itertool.Worker, n >= 1 workers *)
+Theorem C01_complete_process_parallel :
+  forall n, 0 < n -> forall input s,
+    reach (pp_net n) (pp_init n input) s -> s_stopped s = false -> all_done s -> Permutation (s_deliv s) input.
+Proof. exact pp_complete. Qed.
+Print Assumptions C01_complete_process_parallel.
+
+(* C01_complete for fun.Map / Transform.ProcessParallel, n >= 1 workers *)
+Theorem C01_complete_map :
+  forall n, 0 < n -> forall input s,
+    reach (map_net n) (map_init n input) s -> s_stopped s = false -> all_done s -> Permutation (s_deliv s) input.
+Proof. exact map_complete. Qed.
+Print Assumptions C01_complete_map.
+
+(* C01_complete for Iterator.ParallelBuffer *)
+Theorem C01_complete_parallel_buffer :
+  forall n input s,
+    reach (pbuf_net n) (pbuf_init n input) s -> s_stopped s = false -> all_done s -> Permutation (s_deliv s) input.
+Proof. exact pbuf_complete. Qed.
+Print Assumptions C01_complete_parallel_buffer.
+
+(* C01_complete for Iterator.BufferedChannel / Channel, any capacity *)
+Theorem C01_complete_buffered_channel :
+  forall cap input s,
+    reach chan_net (chan_init cap input) s -> s_stopped s = false -> all_done s -> Permutation (s_deliv s) input.
+Proof. exact chan_complete. Qed.
+Print Assumptions C01_complete_buffered_channel.
+
+(* C01_complete: C01_complete_statement for EVERY construct family, under the side conditions complete_ok - at least
+   one worker / output where the construct has them, one input per goroutine for MergeIterators, and for
+   GenerateParallel a generator ending with the end-of-stream signal (the failure-ending one is refuted above) *)
+Theorem C01_complete :
+  forall K srcs s,
+    complete_ok K srcs -> reach (net_of K) (init_of K srcs) s -> s_stopped s = false -> all_done s ->
+    Permutation (s_deliv s) (concat srcs).
+Proof. exact complete_all. Qed.
+Print Assumptions C01_complete.
